@@ -90,6 +90,14 @@ fn put_spans_and_labels(
         let rsjsonnet_lang::span::SpanContext::Source(src_id) = *span_mgr.get_context(span_ctx);
         let snippet = src_mgr.get_file_snippet(src_id);
         let (line, col) = snippet.src_pos_to_line_col(span_start);
+        // A span that only covers characters without width (a byte order mark,
+        // combining marks, ...) cannot be underlined: point at its position instead.
+        let span_end = if span_end > span_start && snippet.src_pos_to_line_col(span_end) == (line, col)
+        {
+            span_start
+        } else {
+            span_end
+        };
 
         by_src
             .entry(src_id)
